@@ -16,10 +16,11 @@ from ..runner import Skip
 
 RULE = ("cases from rng(seed, 5, 0, i): SE(2) (even i) / SE(3) (odd i) trajectory graphs inside the calibrated neighbourhood (3..40 poses, loops, U-turns (relative rotations within 0.02 rad of pi), landmarks "
         "with rotated offsets, dense SPD information cond<=1e3, initial perturbation sigma_t<=0.15 sigma_r<=0.08, noise sigma_t<=0.03 sigma_r<=0.01; every 4th "
-        "case noise-free), tol in 10^U(-10,-3), max_iter=50. distinct = spec fingerprint; non-trivial = initial chi2 > 100 x final chi2 or > 1e-6, "
+        "case noise-free; landmark offsets incl. exactly zero lever arms; landmarks sometimes sharing one initial-guess object; every 5th case judges the second run on the same "
+        "graph object after a vertex was fixed and another nudged), tol in 10^U(-10,-3), max_iter=50. distinct = spec fingerprint; non-trivial = initial chi2 > 100 x final chi2 or > 1e-6, "
         "with at least 2 complete iterations.")
 REQ = ["eval:chi2-not-increased", "eval:converged-within-50", "eval:newton-decrement-small", "eval:noise-free-ground-truth-recovered", "class:se2", "class:se3", "class:loops",
-       "class:landmarks", "class:noisy", "class:u_turns(relative rotation ~ pi)"]
+       "class:landmarks", "class:noisy", "class:u_turns(relative rotation ~ pi)", "class:second_run_on_same_graph_after_edits", "class:landmarks_share_one_initial_guess_object"]
 PLAN = {
     "quick": {"cases": 2400, "soft_s": 90, "min_nontrivial": 500, "require": REQ},
     "thorough": {"cases": 24000, "soft_s": 1500, "min_nontrivial": 5000, "require": REQ},
@@ -27,9 +28,24 @@ PLAN = {
 ASSUMPTIONS = ["claim restricted to the calibrated neighbourhood stated in RULE (un-damped Gauss-Newton may legitimately diverge outside); 'eventually' is decided as 'within 50 iterations'"]
 
 
-def convergence_check(ctx, spec, k, tol, noise_free, n_loops=0, n_lm=0, max_iter=50, where="generated", decrement=True):
-    """Optimize spec with the real code and decide clauses (a)-(c).  Returns (res, fin, lam2, chi_prev) or None."""
+def convergence_check(ctx, spec, k, tol, noise_free, n_loops=0, n_lm=0, max_iter=50, where="generated", decrement=True, history_rng=None):
+    """Optimize spec with the real code and decide clauses (a)-(c).  Returns (res, fin, lam2, chi_prev) or None.
+    With history_rng the judged run is the *second* one on the same graph object: a first short run, then a free pose vertex is marked fixed and
+    another one is nudged (inside the neighbourhood), then the run that is judged - nothing from the first run may leak into it."""
     g = M.build(spec)
+    if history_rng is not None:
+        try:
+            M.quiet_optimize(g, tol=0.0, max_iter=2)
+        except Exception:
+            raise Skip("first run of the history raised")
+        free_pose = [v for v in g._vertices[1:] if M.kind(v.pose) == k and not v.fixed]
+        if len(free_pose) >= 2:
+            free_pose[int(history_rng.integers(len(free_pose)))].fixed = True
+            w = free_pose[int(history_rng.integers(len(free_pose)))]
+            if not w.fixed and all(math.isfinite(x) for x in M.fl(w.pose)):
+                w.pose = M.mkpose(k, gen.perturb(history_rng, k, M.fl(w.pose), 0.05, 0.03))
+        ctx.count("class:second_run_on_same_graph_after_edits")
+        noise_free = False  # a vertex frozen away from its true pose: the measurements are no longer all satisfiable
     case = {"graph": {kk: v for kk, v in spec.items() if kk != "truth"}, "tol": tol}
     chi0_ref = M.ref_graph_chi2(g)
     try:
@@ -46,8 +62,19 @@ def convergence_check(ctx, spec, k, tol, noise_free, n_loops=0, n_lm=0, max_iter
     fin = res.final_chi2
     ok_fin = fin is not None and math.isfinite(fin)
     ctx.check("chi2-not-increased", ok_fin and fin <= res.initial_chi2 * (1 + 1e-9) + 1e-300, feats, {"initial": res.initial_chi2, "final": fin}, case)
-    ctx.check("converged-within-50", bool(res.converged) and res.num_iterations is not None and res.num_iterations <= max_iter, feats,
-              {"converged": res.converged, "num_iterations": res.num_iterations}, case)
+    conv_ok = bool(res.converged) and res.num_iterations is not None and res.num_iterations <= max_iter
+    if not conv_ok and ok_fin:
+        # the stopping test compares a *relative* chi2 decrease with tol; when chi2 at the optimum is so small that its own rounding noise
+        # (2 |e|^T |Omega| delta_e, delta_e ~ 16 eps scale) exceeds tol chi2, the test is decided by noise and no iteration bound can be promised
+        noise = 0.0
+        for e in g._edges:
+            er = np.abs(M.edge_ref_error(e))
+            noise += 2.0 * float(er @ np.abs(np.asarray(e.information)) @ np.ones(len(er))) * 16 * R.EPS * O.edge_scale(e)
+        if noise > 0.1 * tol * max(fin, 1e-300):
+            ctx.skip("requested tol is below the rounding noise of chi2 at the optimum (stopping test decided by noise)")
+            conv_ok = None
+    if conv_ok is not None:
+        ctx.check("converged-within-50", conv_ok, feats, {"converged": res.converged, "num_iterations": res.num_iterations}, case)
     if not ok_fin:
         return None
     seq = [res.initial_chi2] + [r.chi2 for r in res.iteration_results if r.chi2 is not None]
@@ -65,7 +92,7 @@ def convergence_check(ctx, spec, k, tol, noise_free, n_loops=0, n_lm=0, max_iter
     ctx.check("newton-decrement-small", lam2 <= thr, feats, {"lambda2": lam2, "threshold": tol * chi_prev, "tol": tol, "chi2_prev": chi_prev, "chi2_final": fin,
                                                             "iterations": res.num_iterations}, case)
     # the reported final chi2 is the reference chi2 of the returned state
-    ctx.close("final-chi2-is-reference-chi2", fin, chi_f, 1e-9 * max(chi_f, 1e-30) + 1e-22, feats, None, case)
+    ctx.close("final-chi2-is-reference-chi2", fin, chi_f, 1e-9 * max(chi_f, 1e-30) + 1e-18 * max(1.0, res.initial_chi2), feats, None, case)
     if noise_free:
         worst = 0.0
         for e in g._edges:
@@ -105,8 +132,13 @@ def run_case(ctx, i, rng):
     uturn = float(rng.choice([0.0, 0.0, 0.3, 0.6]))
     if uturn:
         ctx.count("class:u_turns(relative rotation ~ pi)")
-    spec = gen.trajectory_graph(rng, k, n, n_loops=n_loops, n_lm=n_lm, meas_t=mt, meas_r=mr, init_t=it, init_r=ir, cond=cond, cross=bool(rng.random() < 0.7), uturn=uturn)
-    out = convergence_check(ctx, spec, k, tol, noise_free, n_loops, n_lm)
+    share = bool(n_lm >= 2 and rng.random() < 0.4)
+    if share:
+        ctx.count("class:landmarks_share_one_initial_guess_object")
+    spec = gen.trajectory_graph(rng, k, n, n_loops=n_loops, n_lm=n_lm, meas_t=mt, meas_r=mr, init_t=it, init_r=ir, cond=cond, cross=bool(rng.random() < 0.7), uturn=uturn,
+                                share_landmark_guess=share)
+    history = bool(i % 5 == 4)
+    out = convergence_check(ctx, spec, k, tol, noise_free, n_loops, n_lm, history_rng=(rng if history else None))
     if out is None:
         return
     res, fin, lam2, chi_prev = out
